@@ -3,7 +3,7 @@
    logical lines are undone by stages 1-2 of parse_graph. *)
 From Coq Require Import List Bool Arith String Lia.
 From Cylc Require Import Base.Util Gen.FamTables Model.GraphBase Model.GraphExpr Model.FamTrig
-  Model.GraphParse Model.GraphAst Proofs.GraphPairProofs.
+  Model.GraphParse Model.GraphAst Proofs.FamTrigProofs Proofs.GraphStoreProofs Proofs.GraphPairProofs.
 Import ListNotations.
 
 (* ================= stage 1 on one physical line ================= *)
@@ -238,12 +238,12 @@ Proof.
       assert (Hn2 : s2 :: more' <> []) by discriminate.
       assert (Hf2 : false = true -> starts_cont (hd [] (s2 :: more')) = false) by discriminate.
       rewrite (IH false (part ++ s) rest Hn2 Hmore Hf2 Hlast Hrest).
-      cbn [List.concat]. now rewrite app_assoc.
+      destruct (join_lines false [] rest); cbn [bind List.concat]; [now rewrite <- app_assoc|reflexivity|reflexivity].
     + rewrite app_comm_cons.
       assert (Hn2 : s2 :: more' <> []) by discriminate.
       assert (Hf2 : false = true -> starts_cont (hd [] (s2 :: more')) = false) by discriminate.
       rewrite (IH false (part ++ s) rest Hn2 Hmore Hf2 Hlast Hrest).
-      cbn [List.concat]. now rewrite app_assoc.
+      destruct (join_lines false [] rest); cbn [bind List.concat]; [now rewrite <- app_assoc|reflexivity|reflexivity].
 Qed.
 
 Definition segments (lay : layout) : list (list tok) := map (fun pf => pline_toks (fst pf)) lay.
@@ -305,4 +305,84 @@ Proof.
   - destruct HF as [|t2 l2 ? ? Hl2 _]; [reflexivity|]. cbn [flat_map].
     destruct (lays_facts t2 l2 Hl2) as [Hn2 [_ [_ [Hst2 _]]]].
     destruct (segments l2); [congruence|]. exact Hst2.
+Qed.
+
+(* ================= the physical layer theorem ================= *)
+Definition items_of (pre : list filler) (ls : list layout) : list item :=
+  map inr pre ++ flat_map (flat_map (fun pf : pline * list filler => inl (fst pf) :: map inr (snd pf))) ls.
+
+Lemma items_print pre ls : map print_item (items_of pre ls) = text_lines pre ls.
+Proof.
+  unfold items_of, text_lines. rewrite map_app, map_map. f_equal.
+  induction ls as [|lay r IH]; [reflexivity|]. cbn [flat_map]. rewrite map_app, IH. f_equal.
+  unfold print_layout_lines. induction lay as [|[p fs] lr IHl]; [reflexivity|].
+  cbn [flat_map fst snd map]. rewrite map_app, IHl. cbn [map print_item]. rewrite map_map. reflexivity.
+Qed.
+
+Lemma plines_of_app a b : plines_of (a ++ b) = plines_of a ++ plines_of b.
+Proof. unfold plines_of. apply flat_map_app. Qed.
+
+Lemma plines_of_inr (l : list filler) : plines_of (map inr l) = [].
+Proof. induction l; cbn; auto. Qed.
+
+Lemma items_plines pre ls : map pline_toks (plines_of (items_of pre ls)) = flat_map segments ls.
+Proof.
+  unfold items_of. rewrite plines_of_app, plines_of_inr. cbn [app].
+  induction ls as [|lay r IH]; [reflexivity|]. cbn [flat_map]. rewrite plines_of_app, map_app, IH. f_equal.
+  unfold segments. induction lay as [|[p fs] lr IHl]; [reflexivity|].
+  cbn [flat_map fst snd map]. change (inl p :: ?x) with ([inl p] ++ x).
+  rewrite !plines_of_app, plines_of_inr. cbn. now rewrite IHl.
+Qed.
+
+Lemma adj_nodes_app a b : adj_nodes (a ++ b) = false -> adj_nodes a = false /\ adj_nodes b = false.
+Proof.
+  induction a as [|t r IH]; cbn [app]; [auto|]. intros H.
+  destruct t; cbn [adj_nodes] in *; try (apply IH; exact H).
+  destruct r as [|t2 r2]; cbn [app] in *.
+  - split; [reflexivity|]. destruct b as [|t3 b']; [reflexivity|]. destruct t3; try exact H. discriminate.
+  - destruct t2; try (apply IH; exact H). discriminate.
+Qed.
+
+Lemma in_items pre ls p : In (inl p) (items_of pre ls) -> exists lay pf, In lay ls /\ In pf lay /\ p = fst pf.
+Proof.
+  unfold items_of. intros H. apply in_app_or in H. destruct H as [H|H].
+  - apply in_map_iff in H. destruct H as [f [Hf _]]. discriminate.
+  - apply in_flat_map in H. destruct H as [lay [Hl H]]. apply in_flat_map in H. destruct H as [pf [Hpf H]].
+    destruct H as [[= <-]|H]; [eauto|]. apply in_map_iff in H. destruct H as [f [Hf _]]. discriminate.
+Qed.
+
+Lemma Forall2_in_r' {A B} (R : A -> B -> Prop) l1 l2 b :
+  Forall2 R l1 l2 -> In b l2 -> exists a, In a l1 /\ R a b.
+Proof.
+  induction 1 as [|x y l1' l2' Hxy HF IH]; intros Hin; [destruct Hin|].
+  destruct Hin as [<-|Hin]; [exists x; split; [now left|exact Hxy]|].
+  destruct (IH Hin) as [a [Ha HR]]. exists a. split; [now right|exact HR].
+Qed.
+
+Lemma lays_pline_good toks lay pf : lays toks lay -> In pf lay -> pline_good (fst pf) = true.
+Proof.
+  intros Hl Hpf. destruct (lays_facts toks lay Hl) as [_ [Hs [Hc _]]].
+  destruct Hl as [Hlo _]. unfold line_ok in Hlo.
+  apply andb_true_iff in Hlo. destruct Hlo as [Hlo Hadj]. apply andb_true_iff in Hlo. destruct Hlo as [Hlo _].
+  apply andb_true_iff in Hlo. destruct Hlo as [Hlo _]. apply andb_true_iff in Hlo. destruct Hlo as [_ Hclean].
+  apply negb_true_iff in Hadj.
+  assert (Hin : In (pline_toks (fst pf)) (segments lay))
+    by (unfold segments; apply (in_map (fun x : pline * list filler => pline_toks (fst x))); exact Hpf).
+  assert (Hne : pline_toks (fst pf) <> []) by (eapply seg_ok_nonempty; eauto).
+  apply in_split in Hin. destruct Hin as [l1 [l2 E]]. rewrite E, concat_app in Hc. cbn [List.concat] in Hc.
+  subst toks. rewrite !forallb_app in Hclean.
+  apply andb_true_iff in Hclean. destruct Hclean as [_ Hclean]. apply andb_true_iff in Hclean. destruct Hclean as [Hclean _].
+  apply adj_nodes_app in Hadj. destruct Hadj as [_ Hadj]. apply adj_nodes_app in Hadj. destruct Hadj as [Hadj _].
+  unfold pline_good. rewrite Hclean, Hadj. cbn. rewrite andb_true_r.
+  unfold pline_toks in Hne. destruct (pl_toks (fst pf)); [cbn in Hne; congruence|reflexivity].
+Qed.
+
+Theorem phys_layer pre ls lines : Forall2 lays lines ls ->
+  bind (phys_lines (render_text pre ls)) (join_lines true []) = Ok lines.
+Proof.
+  intros HF. unfold render_text. rewrite <- items_print.
+  rewrite phys_lines_items.
+  - cbn [bind]. rewrite items_plines. now apply join_all.
+  - intros p Hp. apply in_items in Hp. destruct Hp as [lay [pf [Hl [Hpf ->]]]].
+    destruct (Forall2_in_r' _ _ _ _ HF Hl) as [toks [_ Hlays]]. eapply lays_pline_good; eauto.
 Qed.
